@@ -56,7 +56,8 @@ def first_diff(a, b):
 
 
 def install(g, prop, names, prefixes, profiles_quick, profiles_thorough=None, n_quick=250, n_thorough=4000,
-            nontrivial=None, corpus=(), hang_clause=None, extra_monitors=None, case_filter=None, level="exploration"):
+            nontrivial=None, corpus=(), hang_clause=None, extra_monitors=None, case_filter=None, level="exploration",
+            impl_only=None, extra_gen=None):
     """Defines the driver API in module namespace g."""
     g["PROP"] = prop
     g["LEVEL"] = level
@@ -72,13 +73,15 @@ def install(g, prop, names, prefixes, profiles_quick, profiles_thorough=None, n_
         cs = gen(rng, n, profs)
         if case_filter:
             cs = [c for c in cs if case_filter(c)]
+        if extra_gen:
+            cs += [finish_case(c, m) for c, m in extra_gen(rng, tier)]
         return cs
     g["gen_cases"] = gen_cases
     g["CORPUS"] = [finish_case(copy.deepcopy(c), {"corpus": True}) for c in corpus]
 
     def compare(c, m, io):
-        if "out" not in io:
-            return None
+        if "out" not in io or (impl_only and impl_only(c)):
+            return None          # impl_only: a scenario class outside the model; only the monitors speak
         pm, pi = project(m, names), project(io["out"], names)
         if pm["outs"] != pi["outs"]:
             return "outcomes of the top-level computations differ: model %s / implementation %s" % (pm["outs"], pi["outs"])
@@ -91,7 +94,10 @@ def install(g, prop, names, prefixes, profiles_quick, profiles_thorough=None, n_
                 return [dict(clause=hang_clause, site="computation-did-not-terminate",
                              msg="the computation did not finish within the watchdog limit")]
             return []
-        fs = [f for f in machmon.analyse(c, io) if any(f["clause"].startswith(p) for p in prefixes)]
+        if impl_only and impl_only(c):
+            fs = []
+        else:
+            fs = [f for f in machmon.analyse(c, io) if any(f["clause"].startswith(p) for p in prefixes)]
         if extra_monitors:
             fs += extra_monitors(c, io, build)
         return fs
